@@ -743,10 +743,11 @@ CO_ERR COSdoDownloadBlock(CO_SDO *srv)
 
     cmd = CO_GET_BYTE(srv->Frm, 0);
     if ((cmd & 0x7F) == (srv->Blk.SegCnt + 1)) {
-        /* check, that we need at least 1 byte out of the payload
-         * and that the segment fits into the transfer buffer
+        /* check, that we need at least 1 byte out of the payload (the
+         * last segment may carry no data at all) and that the segment
+         * fits into the transfer buffer
          */
-        if ((srv->Blk.Len > 0) &&
+        if (((srv->Blk.Len > 0) || ((cmd & 0x80) != 0)) &&
             (srv->Buf.Num <= (uint32_t)(CO_SDO_BUF_BYTE - 7))) {
             /* bytes of this segment, which the object can take */
             srv->Blk.LastValid = (srv->Blk.Len >= 7u) ? 7u : (uint8_t)srv->Blk.Len;
